@@ -648,3 +648,310 @@ Section Coverage.
     destruct (span (fun x => negb (x =? 10)%N) s) as [a rest]. apply (IH _ _ _ E); lia.
   Qed.
 End Coverage.
+
+(** * 1 (continued) and 3. What the first token of a text is *)
+
+Lemma ftoken_eqb_eq : forall a b, ftoken_eqb a b = true -> a = b.
+Proof. intros a b; destruct a; destruct b; intros H; try reflexivity; discriminate H. Qed.
+
+Lemma ftoken_eqb_refl : forall a, ftoken_eqb a a = true.
+Proof. destruct a; reflexivity. Qed.
+
+(* the first character of every two-character operator is an ASCII punctuation character that
+   no earlier arm of the tokenizer claims, and it has exactly one row in the table *)
+Definition double_head_ok (p : N * N * ftoken * option ftoken) : bool :=
+  let '(a, b, t, e) := p in
+  (a <? 128)%N && (b <? 128)%N && negb (ascii_alpha a || (a =? 95)%N) && negb (is_digit a)
+  && negb (a =? 34)%N && negb (is_ws a) && negb (a =? 47)%N
+  && match find_double a double_tokens with
+     | Some (b', t', e') =>
+         (b' =? b)%N && ftoken_eqb t' t &&
+         match e', e with
+         | Some x, Some y => ftoken_eqb x y
+         | None, None => true
+         | _, _ => false
+         end
+     | None => false
+     end.
+
+Lemma double_heads_ok : forallb double_head_ok double_tokens = true.
+Proof. vm_compute. reflexivity. Qed.
+
+(* the white-space code points of the table that are ASCII are claimed by no earlier arm *)
+Definition ws_entry_ok (c : N) : bool :=
+  negb (is_digit c) && negb (c =? 34)%N && negb (c =? 46)%N && negb (c =? 47)%N
+  && negb (existsb (fun '(a, b, t, e) => (b =? c)%N) double_tokens)
+  && ((128 <=? c)%N || negb (ascii_alpha c || is_digit c || (c =? 95)%N)).
+
+Lemma ws_table_ok : forallb ws_entry_ok whitespace = true.
+Proof. vm_compute. reflexivity. Qed.
+
+Lemma is_ws_In : forall c, is_ws c = true -> In c whitespace.
+Proof.
+  intros c H. unfold is_ws in H. apply existsb_exists in H. destruct H as (x & I & E).
+  apply N.eqb_eq in E. subst. exact I.
+Qed.
+
+Lemma keyword_rows_distinct :
+  forallb (fun p => match assoc_text (str_cps (fst p)) keywords with
+                    | Some k' => ftoken_eqb k' (snd p)
+                    | None => false
+                    end) keywords = true.
+Proof. vm_compute. reflexivity. Qed.
+
+Section FirstToken.
+  Variable u : unicode.
+
+  Lemma next_token_quote : forall f r pos,
+    next_token u (S f) (34%N :: r) pos =
+      let '(a, rest) := span_string false r in
+      match rest with
+      | [] => Some (TFix KIllegal, [], pos + 1 + utf8_len a)
+      | q :: rest' => Some (TStringLit a, rest', pos + 1 + utf8_len a + utf8_len1 q)
+      end.
+  Proof.
+    intros f r pos. rewrite next_token_S. cbv zeta.
+    rewrite (ident_start_ascii u 34%N) by reflexivity. reflexivity.
+  Qed.
+
+  (* a literal written with any raw text (escape pairs and plain characters) is one token *)
+  Theorem raw_string_lexes : forall r rest pos f, raw_string r ->
+    next_token u (S f) (34%N :: r ++ 34%N :: rest) pos = Some (TStringLit r, rest, pos + 2 + utf8_len r).
+  Proof.
+    intros r rest pos f H. rewrite next_token_quote. rewrite (span_string_raw r rest H).
+    change (utf8_len1 34%N) with 1. do 2 f_equal. lia.
+  Qed.
+
+  Theorem string_lexes : forall s rest pos f,
+    next_token u (S f) (34%N :: quote s ++ 34%N :: rest) pos
+    = Some (TStringLit (quote s), rest, pos + 2 + utf8_len (quote s)).
+  Proof. intros s rest pos f. apply raw_string_lexes. apply quote_raw. Qed.
+
+  Corollary string_literal_denotes : forall s rest pos f,
+    exists raw pos', next_token u (S f) (34%N :: quote s ++ 34%N :: rest) pos = Some (TStringLit raw, rest, pos')
+                     /\ decode_string raw = s.
+  Proof.
+    intros s rest pos f. exists (quote s), (pos + 2 + utf8_len (quote s)).
+    split; [apply string_lexes|apply string_roundtrip].
+  Qed.
+
+  (* an opening quote without closing quote: the rest of the input becomes one KIllegal token *)
+  Theorem unterminated_is_illegal : forall body pos f, ~ terminated body ->
+    next_token u (S f) (34%N :: body) pos = Some (TFix KIllegal, [], pos + 1 + utf8_len body).
+  Proof.
+    intros body pos f NT. rewrite next_token_quote. rewrite (span_string_unterminated body NT). reflexivity.
+  Qed.
+
+  (* ... and conversely a literal is produced only for a terminated body *)
+  Theorem string_token_inv : forall body pos f raw rest pos',
+    next_token u (S f) (34%N :: body) pos = Some (TStringLit raw, rest, pos') ->
+    raw_string raw /\ body = raw ++ 34%N :: rest /\ pos' = pos + 2 + utf8_len raw.
+  Proof.
+    intros body pos f raw rest pos' H. rewrite next_token_quote in H.
+    destruct (span_string_cases body) as [(r & rest0 & Hr & E & S)|(NT & S)]; rewrite S in H.
+    - change (utf8_len1 34%N) with 1 in H. inversion H; subst. split; [exact Hr|]. split; [reflexivity|lia].
+    - discriminate.
+  Qed.
+
+  (** ** 3a. two-character operators before their one-character prefixes *)
+
+  Lemma next_token_punct : forall c r pos f,
+    ident_start u c = false -> is_digit c = false -> (c =? 34)%N = false -> is_ws c = false ->
+    (c =? 47)%N = false ->
+    next_token u (S f) (c :: r) pos =
+      match find_double c double_tokens with
+      | Some (second, t, els) =>
+          let matched := match r with x :: _ => (x =? second)%N | [] => false end in
+          let tok := if matched then Some t else els in
+          match tok with
+          | None => Some (TFix KIllegal, r, pos + utf8_len1 c)
+          | Some k =>
+              if is_two_char k then
+                match r with
+                | x :: r' => Some (TFix k, r', pos + utf8_len1 c + utf8_len1 x)
+                | [] => Some (TFix k, [], pos + utf8_len1 c)
+                end
+              else Some (TFix k, r, pos + utf8_len1 c)
+          end
+      | None =>
+          match assoc N.eqb c single_tokens with
+          | Some k => Some (TFix k, r, pos + utf8_len1 c)
+          | None => Some (TFix KIllegal, r, pos + utf8_len1 c)
+          end
+      end.
+  Proof.
+    intros c r pos f H1 H2 H3 H4 H5. rewrite next_token_S. cbv zeta. rewrite H1, H2, H3, H4, H5. reflexivity.
+  Qed.
+
+  Lemma double_row : forall a b t e, In (a, b, t, e) double_tokens ->
+    ident_start u a = false /\ is_digit a = false /\ (a =? 34)%N = false /\ is_ws a = false /\
+    (a =? 47)%N = false /\ find_double a double_tokens = Some (b, t, e) /\
+    utf8_len1 a = 1 /\ utf8_len1 b = 1 /\ is_two_char t = true /\
+    match e with Some k => is_two_char k = false | None => True end.
+  Proof.
+    intros a b t e I.
+    pose proof double_heads_ok as K. rewrite forallb_forall in K. specialize (K _ I).
+    pose proof doubles_ok as K2. rewrite forallb_forall in K2. specialize (K2 _ I).
+    unfold double_head_ok in K. unfold double_entry_ok in K2.
+    repeat (apply andb_true_iff in K; let X := fresh "X" in destruct K as [K X]).
+    apply andb_true_iff in K2. destruct K2 as [K2 K3]. apply andb_true_iff in K2. destruct K2 as [_ K2].
+    apply N.ltb_lt in K. apply N.ltb_lt in X5.
+    apply negb_true_iff in X4, X3, X2, X1, X0.
+    rewrite ident_start_ascii by exact K.
+    repeat split; auto using utf8_len1_ascii.
+    - destruct (find_double a double_tokens) as [[[b' t'] e']|]; [|discriminate].
+      apply andb_true_iff in X. destruct X as [X Y]. apply andb_true_iff in X. destruct X as [X Z].
+      apply N.eqb_eq in X. apply ftoken_eqb_eq in Z. subst.
+      destruct e' as [x|], e as [y|]; try discriminate; [apply ftoken_eqb_eq in Y; subst|]; reflexivity.
+    - destruct e as [k|]; [|exact Logic.I]. apply andb_true_iff in K3. destruct K3 as [_ K3].
+      apply negb_true_iff in K3. exact K3.
+  Qed.
+
+  (* for each row (a, b, t, e) of the table: `ab` is the operator t ... *)
+  Theorem two_char_first : forall a b t e rest pos f, In (a, b, t, e) double_tokens ->
+    next_token u (S f) (a :: b :: rest) pos = Some (TFix t, rest, pos + 2).
+  Proof.
+    intros a b t e rest pos f I.
+    destruct (double_row _ _ _ _ I) as (H1 & H2 & H3 & H4 & H5 & FD & La & Lb & TC & _).
+    rewrite next_token_punct by assumption. rewrite FD. cbv zeta. rewrite N.eqb_refl. rewrite TC.
+    rewrite La, Lb. do 2 f_equal. lia.
+  Qed.
+
+  (* ... and `a` followed by anything else (or by nothing) is the one-character token e, consuming
+     one character only; `&` and `|` alone (e = None) are illegal characters *)
+  Definition prefix_token (e : option ftoken) : token :=
+    match e with Some k => TFix k | None => TFix KIllegal end.
+
+  Theorem one_char_otherwise : forall a b t e c rest pos f, In (a, b, t, e) double_tokens -> c <> b ->
+    next_token u (S f) (a :: c :: rest) pos = Some (prefix_token e, c :: rest, pos + 1).
+  Proof.
+    intros a b t e c rest pos f I NE.
+    destruct (double_row _ _ _ _ I) as (H1 & H2 & H3 & H4 & H5 & FD & La & Lb & TC & EC).
+    rewrite next_token_punct by assumption. rewrite FD. cbv zeta.
+    apply N.eqb_neq in NE. rewrite NE. rewrite La.
+    destruct e as [k|]; [rewrite EC|]; reflexivity.
+  Qed.
+
+  Theorem one_char_at_end : forall a b t e pos f, In (a, b, t, e) double_tokens ->
+    next_token u (S f) [a] pos = Some (prefix_token e, [], pos + 1).
+  Proof.
+    intros a b t e pos f I.
+    destruct (double_row _ _ _ _ I) as (H1 & H2 & H3 & H4 & H5 & FD & La & Lb & TC & EC).
+    rewrite next_token_punct by assumption. rewrite FD. cbv zeta. rewrite La.
+    destruct e as [k|]; [rewrite EC|]; reflexivity.
+  Qed.
+
+  (* the same for '/': `//` opens a comment, '/' followed by anything else is KSlash *)
+  Theorem slash_otherwise : forall c rest pos f, c <> 47%N ->
+    next_token u (S f) (47%N :: c :: rest) pos = Some (TFix KSlash, c :: rest, pos + 1).
+  Proof.
+    intros c rest pos f NE. rewrite next_token_S. cbv zeta.
+    rewrite (ident_start_ascii u 47%N) by reflexivity.
+    apply N.eqb_neq in NE.
+    change (ascii_alpha 47%N || (47 =? 95)%N) with false. cbv iota.
+    change (is_digit 47%N) with false. change (47 =? 34)%N with false. change (is_ws 47%N) with false.
+    change (47 =? 47)%N with true. cbv iota. rewrite NE. reflexivity.
+  Qed.
+
+  (** ** 3b. keywords only as whole words; identifiers keep their spelling *)
+
+  Theorem keyword_iff : forall w k,
+    keyword_or_ident w = TFix k <-> exists s, In (s, k) keywords /\ w = str_cps s.
+  Proof.
+    intros w k. unfold keyword_or_ident. split.
+    - destruct (assoc_text w keywords) as [k'|] eqn:E; [|discriminate].
+      intros H. inversion H; subst. apply assoc_text_In. exact E.
+    - intros (s & I & ->). pose proof keyword_rows_distinct as K. rewrite forallb_forall in K.
+      specialize (K _ I). cbn [fst snd] in K.
+      destruct (assoc_text (str_cps s) keywords) as [k'|]; [|discriminate].
+      apply ftoken_eqb_eq in K. subst. reflexivity.
+  Qed.
+
+  Theorem non_keyword_is_ident : forall w,
+    (forall s k, In (s, k) keywords -> w <> str_cps s) -> keyword_or_ident w = TIdent w.
+  Proof.
+    intros w H. unfold keyword_or_ident. destruct (assoc_text w keywords) as [k|] eqn:E; [|reflexivity].
+    apply assoc_text_In in E. destruct E as (s & I & W). exfalso. exact (H _ _ I W).
+  Qed.
+
+  (* a maximal identifier-shaped word is one token, keyword or identifier, spelled verbatim *)
+  Theorem word_lexes : forall c a rest pos f,
+    ident_start u c = true -> forallb (ident_char u) a = true -> stops (ident_char u) rest ->
+    next_token u (S f) (c :: a ++ rest) pos = Some (keyword_or_ident (c :: a), rest, pos + utf8_len (c :: a)).
+  Proof.
+    intros c a rest pos f H1 H2 H3. rewrite next_token_S. cbv zeta. rewrite H1.
+    rewrite (span_exact _ _ _ H2 H3). rewrite utf8_len_cons. do 2 f_equal. lia.
+  Qed.
+
+  (** ** 3c. numbers keep their exact spelling *)
+
+  Lemma span_number_digits : forall ds d rest, forallb is_digit ds = true ->
+    span_number d (ds ++ rest) = let '(a, b, d') := span_number d rest in (ds ++ a, b, d').
+  Proof.
+    induction ds as [|c ds IH]; intros d rest H.
+    - cbn [app]. destruct (span_number d rest) as [[a b] d']. reflexivity.
+    - cbn [forallb] in H. apply andb_true_iff in H. destruct H as [Hc H].
+      cbn [app span_number]. rewrite Hc. rewrite (IH d rest H).
+      destruct (span_number d rest) as [[a b] d']. reflexivity.
+  Qed.
+
+  Lemma span_number_stop : forall d rest,
+    stops (fun x => is_digit x || negb d && (x =? 46)%N) rest -> span_number d rest = ([], rest, d).
+  Proof.
+    intros d [|c r] H; [reflexivity|]. cbn [stops] in H. apply orb_false_iff in H. destruct H as [H1 H2].
+    cbn [span_number]. rewrite H1, H2. reflexivity.
+  Qed.
+
+  Theorem int_lexes : forall c ds rest pos f,
+    is_digit c = true -> forallb is_digit ds = true ->
+    stops (fun x => is_digit x || (x =? 46)%N) rest ->
+    next_token u (S f) (c :: ds ++ rest) pos = Some (TIntLit (c :: ds), rest, pos + utf8_len (c :: ds)).
+  Proof.
+    intros c ds rest pos f Hc Hd Hr. rewrite next_token_S. cbv zeta.
+    rewrite (digit_not_ident_start u c Hc), Hc.
+    rewrite (span_number_digits ds false rest Hd). rewrite (span_number_stop false rest Hr).
+    rewrite app_nil_r. rewrite utf8_len_cons. do 2 f_equal. lia.
+  Qed.
+
+  (* the first '.' belongs to the number even when no digit follows; a second '.' ends it *)
+  Theorem float_lexes : forall c ds fs rest pos f,
+    is_digit c = true -> forallb is_digit ds = true -> forallb is_digit fs = true ->
+    stops is_digit rest ->
+    next_token u (S f) (c :: ds ++ 46%N :: fs ++ rest) pos
+    = Some (TFloatLit (c :: ds ++ 46%N :: fs), rest, pos + utf8_len (c :: ds ++ 46%N :: fs)).
+  Proof.
+    intros c ds fs rest pos f Hc Hd Hf Hr. rewrite next_token_S. cbv zeta.
+    rewrite (digit_not_ident_start u c Hc), Hc.
+    rewrite (span_number_digits ds false _ Hd).
+    assert (E : span_number false (46%N :: fs ++ rest) = (46%N :: fs, rest, true)).
+    { cbn [span_number]. change (is_digit 46%N) with false. change (negb false && (46 =? 46)%N) with true.
+      cbv iota. rewrite (span_number_digits fs true rest Hf).
+      rewrite (span_number_stop true rest).
+      - rewrite app_nil_r. reflexivity.
+      - destruct rest as [|x r]; [exact I|]. cbn [stops] in Hr |- *. rewrite Hr. reflexivity. }
+    rewrite E. rewrite utf8_len_cons. do 2 f_equal. lia.
+  Qed.
+End FirstToken.
+
+(* Examples with a trivial oracle (nothing beyond ASCII is a letter) *)
+Definition u0 : unicode := mkUnicode (fun _ => false) (fun _ => false).
+
+Example ex_keyword : tokens u0 (str_cps "als") = [TFix KIf].
+Proof. vm_compute. reflexivity. Qed.
+Example ex_alsof : tokens u0 (str_cps "alsof") = [TIdent (str_cps "alsof")].
+Proof. vm_compute. reflexivity. Qed.
+Example ex_stelling : tokens u0 (str_cps "stelling") = [TIdent (str_cps "stelling")].
+Proof. vm_compute. reflexivity. Qed.
+Example ex_ja_ : tokens u0 (str_cps "ja_") = [TIdent (str_cps "ja_")].
+Proof. vm_compute. reflexivity. Qed.
+Example ex_float_dot : tokens u0 (str_cps "2.") = [TFloatLit (str_cps "2.")].
+Proof. vm_compute. reflexivity. Qed.
+Example ex_second_dot : tokens u0 (str_cps "1.2.3") = [TFloatLit (str_cps "1.2"); TFix KDot; TIntLit (str_cps "3")].
+Proof. vm_compute. reflexivity. Qed.
+Example ex_ops : tokens u0 (str_cps "a<=b<c==d=e!=!f") =
+  [TIdent (str_cps "a"); TFix KLte; TIdent (str_cps "b"); TFix KLt; TIdent (str_cps "c"); TFix KEq;
+   TIdent (str_cps "d"); TFix KAssign; TIdent (str_cps "e"); TFix KNeq; TFix KBang; TIdent (str_cps "f")].
+Proof. vm_compute. reflexivity. Qed.
+Example ex_amp : tokens u0 (str_cps "a&b&&c") =
+  [TIdent (str_cps "a"); TFix KIllegal; TIdent (str_cps "b"); TFix KAnd; TIdent (str_cps "c")].
+Proof. vm_compute. reflexivity. Qed.
